@@ -410,7 +410,7 @@ def gen_response(rng, files=None, allow_sse=True, allow_raise=False):
         f = rng.choice(files)
         r["path"] = f
         if rng.random() < 0.3:
-            r["download_name"] = rng.choice(["report.pdf", "a b.txt", "data.bin", "tab\there.txt", "esc\x1b.bin", "del\x7f.txt", "q\"uote.txt", "bs\\lash", "caf\xe9.txt",
+            r["download_name"] = rng.choice(["report.pdf", "caf\xe9\there.txt", "\u6587\x1b.bin", "\xfc\x7f.txt", "a b.txt", "data.bin", "tab\there.txt", "esc\x1b.bin", "del\x7f.txt", "q\"uote.txt", "bs\\lash", "caf\xe9.txt",
                                              "\u6587\u4ef6.bin", "semi;colon.txt", "x\x01y", "percent%41.txt"])
         if rng.random() < 0.3:
             r["content_type"] = rng.choice(["text/plain", "application/octet-stream", "image/png"])
